@@ -46,6 +46,11 @@ func newSnapshot(lastFrame int) (*cptvframe.Frame, error) {
 	if processor == nil {
 		return nil, errors.New("reading from camera has not started yet")
 	}
+	if processor.FrameCount() == 0 {
+		// Nothing received on this camera connection yet: the frame buffer
+		// only holds blank frames.
+		return nil, errors.New("no frames yet")
+	}
 	if lastFrame >= 0 && uint32(lastFrame) == processor.FrameCount() {
 		return nil, errors.New("no new frames yet")
 	}
